@@ -2229,8 +2229,12 @@ def allclose(a, b, atol: float = 1e-8):
     -----------
     bool indicating if all elements are within `atol`.
     """
-    #
-    return float(np.ptp(a - b)) < atol
+    # the largest absolute difference: the spread of the differences
+    # (`np.ptp`) is zero when every element is off by the same amount
+    delta = np.abs(np.subtract(a, b))
+    if delta.size == 0:
+        return True
+    return float(delta.max()) < atol
 
 
 class FunctionRegistry(Mapping):
